@@ -738,7 +738,13 @@ impl Stringify for Value {
                                     .trim_matches(crate::parse::is_template_whitespace)
                                     .is_empty()) =>
                         {
-                            stringifier.write_token(&escape_html_body(value), None, location)?;
+                            let mut text = escape_html_body(value).into_owned();
+                            if !is_whole_expr && text.ends_with('{') {
+                                // a binding may follow: `{` + `{{` would be read as `{{` + `{`
+                                text.pop();
+                                text.push_str("&#123;");
+                            }
+                            stringifier.write_token(&text, None, location)?;
                             return Ok(());
                         }
                         Expression::ToStringWithoutUndefined { value, location } => {
